@@ -278,6 +278,11 @@ def _t5(ctx, nested):
         y = ys[0]
         lid = _deferred_list(p.trace)
         if lid is None:
+            # the cleanup callable may be a closure: take the list the removal loop iterates
+            for ev in p.trace:
+                if ev.kind == 'FOR' and ev.d['iter'].k == 'list' and ev.fn is f:
+                    lid = ev.d['iter'].a[1]
+        if lid is None:
             continue
         has_list = True
         begun = any(i < y for i in _begin_ok(p.trace))
